@@ -125,6 +125,8 @@ Fixpoint dbl (fuel : nat) (sz next : N) : N :=
   | S f => if sz <? next then dbl f (2 * sz) next else sz
   end.
 
+Definition dbl_fuel : nat := 64.
+
 (** The abstract [Mapping]: the published node whose key is [k]. *)
 Definition map_find (st : fstate) (k : N) : option nat :=
   find (fun id => match fkey (nth id (fnodes st) dfnode) with
@@ -195,7 +197,7 @@ Section FModel.
             if flane_free st i then Some (goto (fset_lane st i (Some t)) (facq_next nl t (S i)), [])
             else None
         | FGrow, _ =>                            (* double the slot array, memcpy the old content *)
-            let ns := dbl 64 (2 * fcount st) (fnext st) in
+            let ns := dbl dbl_fuel (2 * fcount st) (fnext st) in
             Some (goto (mkFState (fslots st ++ repeat None (N.to_nat ns - N.to_nat (fcount st)))
                                  (fnodes st) (fmap st) (fnext st) ns (fhandles st) (flanes st)
                                  (fbla st) (fthreads st))
